@@ -1,6 +1,7 @@
 package main
 
 import (
+	"regexp"
 	"flag"
 	"fmt"
 	"os"
@@ -15,6 +16,7 @@ func cmdVerify(args []string) {
 	verbose := fs.Bool("v", false, "verbose")
 	dump := fs.String("dump", "", "directory to dump queries of failed obligations")
 	kinds := fs.String("kinds", "", "comma-separated obligation kinds to check (default all)")
+	only := fs.String("only", "", "regexp on obligation names")
 	fs.Parse(args)
 	p, err := loadProgram()
 	if err != nil {
@@ -52,8 +54,9 @@ func cmdVerify(args []string) {
 			continue
 		}
 		opt := Options{Timeout: *timeout, NeedAgree: 1, Workers: 12}
-		if len(kindSet) > 0 {
-			opt.Only = func(o *Obligation) bool { return kindSet[o.Kind] }
+		if len(kindSet) > 0 || *only != "" {
+			re := regexp.MustCompile(*only)
+			opt.Only = func(o *Obligation) bool { return (len(kindSet) == 0 || kindSet[o.Kind]) && re.MatchString(o.Name) }
 		}
 		solveUnit(res, opt)
 		counts := map[string]int{}
@@ -71,6 +74,24 @@ func cmdVerify(args []string) {
 					name := strings.NewReplacer("/", "_", " ", "_", "*", "", "(", "", ")", "").Replace(o.Name)
 					os.WriteFile(filepath.Join(*dump, name+".smt2"), []byte("(set-logic ALL)\n"+res.unit.script(o)+"(check-sat)\n"), 0o644)
 					os.WriteFile(filepath.Join(*dump, name+".sliced.smt2"), []byte("(set-logic ALL)\n"+res.unit.scriptSliced(o)+"(check-sat)\n"), 0o644)
+					if gs := ginstScript(res.unit.script(o), false); gs != "" {
+						os.WriteFile(filepath.Join(*dump, name+".ginst.smt2"), []byte("(set-logic ALL)\n"+gs+"(check-sat)\n"), 0o644)
+					}
+					if gs := ginstScript(res.unit.script(o), true); gs != "" {
+						os.WriteFile(filepath.Join(*dump, name+".ground.smt2"), []byte("(set-logic ALL)\n"+gs+"(check-sat)\n"), 0o644)
+					}
+					if gs := ginstScriptOpt(res.unit.script(o), true, true); gs != "" {
+						os.WriteFile(filepath.Join(*dump, name+".uf.smt2"), []byte("(set-logic ALL)\n"+gs+"(check-sat)\n"), 0o644)
+					}
+					if fs := res.unit.scriptFocused(o); fs != "" {
+						os.WriteFile(filepath.Join(*dump, name+".focused.smt2"), []byte("(set-logic ALL)\n"+fs+"(check-sat)\n"), 0o644)
+						if gs := ginstScript(fs, true); gs != "" {
+							os.WriteFile(filepath.Join(*dump, name+".fground.smt2"), []byte("(set-logic ALL)\n"+gs+"(check-sat)\n"), 0o644)
+						}
+						if gs := ginstScriptOpt(fs, true, true); gs != "" {
+							os.WriteFile(filepath.Join(*dump, name+".fuf.smt2"), []byte("(set-logic ALL)\n"+gs+"(check-sat)\n"), 0o644)
+						}
+					}
 				}
 			}
 		}
